@@ -36,12 +36,33 @@ def damage(rng, src):
     return src if k < 0 else src[:k] + src[k + 1:]
 
 
-def classify(src, f1):
+PHASES = ["wrap", "spans", "indent", "blanks", "types", "spacing", "final"]
+
+
+def classify(ctx, src, f1_hex, first_trace):
+    """Key = the first phase that changes the already formatted text in the SECOND pass, qualified by
+    the input class (carriage returns / a line starting inside a string literal / the first pass joined
+    lines with a span edit, which shifts the line numbers its line edits were computed for)."""
+    tr = ctx.garden_batch(["fmt_trace " + f1_hex], shards=1)[0] or ""
+    texts = F.trace_texts(tr)
+    phase = "unknown"
+    prev = f1_hex
+    for p in PHASES:
+        if p in texts:
+            if texts[p] != prev:
+                phase = p
+                break
+            prev = texts[p]
+    f1 = unhex(f1_hex)
     if "\r" in src:
-        return "C18/carriage-return"
-    if F.line_starts_in_string(src) or F.line_starts_in_string(f1):
-        return "C18/multi-line-string-literal"
-    return None
+        q = "-carriage-return"
+    elif F.line_starts_in_string(src) or F.line_starts_in_string(f1):
+        q = "-multi-line-string"
+    else:
+        t1 = F.trace_texts(first_trace or "")
+        joined = "wrap" in t1 and "spans" in t1 and unhex(t1["wrap"]).count("\n") != unhex(t1["spans"]).count("\n")
+        q = "-after-joined-lines" if joined else ""
+    return "C18/second-pass-%s%s" % (phase, q)
 
 
 def run(ctx):
@@ -82,9 +103,7 @@ def run(ctx):
             continue
         if rr[3:] != f1[i]:
             out2 = unhex(rr[3:])
-            key = classify(s, out1)
-            if key is None:
-                key = "C18/not-idempotent"
+            key = classify(ctx, s, f1[i], ctx.garden_batch(["fmt_trace " + hx[i]], shards=1)[0])
             ctx.fail(key, "format(format(x)) != format(x)", origin=o, input=s, first=out1, second=out2,
                      command="garden format f.gdn > g.gdn; garden format g.gdn | diff g.gdn -")
     ctx.cov["programs"] = len(ok)
@@ -95,7 +114,7 @@ def run(ctx):
     # ---- tie: phase models vs real intermediate texts, all inputs (no token marks needed)
     r_tr = dict(zip(ok, ctx.garden_batch(["fmt_trace " + hx[i] for i in ok])))
     fc_idx = [i for i in ok if r_tr[i] and r_tr[i].startswith("OK ")]
-    r_fc = dict(zip(fc_idx, ctx.model_batch(["fmt_check %s (marks_wrap) (marks_spans)" % r_tr[i][3:] for i in fc_idx])))
+    r_fc = dict(zip(fc_idx, F.model_batch(ctx, ["fmt_check %s (marks_wrap) (marks_spans)" % r_tr[i][3:] for i in fc_idx])))
     n_panic_model = 0
     for i in fc_idx:
         fc = r_fc[i] or ""
